@@ -19,6 +19,7 @@ import (
 
 type UH struct {
 	ID    int
+	Cfg   Config // configuration of the parser this URL belongs to (its special-scheme table judges it)
 	U     *url.Url
 	Prov  string // parsed | resolved | cloned | new
 	From  int    // base / source handle id, -1 if none
@@ -59,6 +60,8 @@ type Event struct {
 type World struct {
 	Cfg         Config
 	P           url.Parser // nil => package-level functions (the default parser)
+	Cfg2        *Config
+	P2          url.Parser // second parser (cross-parser resolution), nil if the plan has none
 	U           map[int]*UH
 	S           map[int]*SH
 	Cur         map[int]Obs
@@ -275,6 +278,7 @@ func (w *World) exec(i int, op Op) (ev Event) {
 			ev.PanicMsg = fmt.Sprint(e)
 		}
 	}()
+	ownerCfg := w.Cfg
 	mkURL := func(u *url.Url, err error, prov string, from int) {
 		ev.Err = errType(err)
 		if w.touchErrors {
@@ -287,7 +291,7 @@ func (w *World) exec(i int, op Op) (ev Event) {
 			ev.Contract = "nil error and nil URL"
 			return
 		}
-		nu := &UH{ID: op.D, U: u, Prov: prov, From: from}
+		nu := &UH{ID: op.D, U: u, Prov: prov, From: from, Cfg: ownerCfg}
 		if from >= 0 && prov == "cloned" {
 			nu.QW = w.U[from].QW
 		}
@@ -328,7 +332,19 @@ func (w *World) exec(i int, op Op) (ev Event) {
 			u, err = w.parseRef(b.U.Href(false), ref)
 		case op.W == 2 && w.P != nil:
 			u, err = w.P.BasicParser(ref, b.U, nil, url.NoState)
+		case op.W == 3 && w.P2 != nil:
+			// the other parser resolves against a base it did not make; the result is that parser's
+			other, otherCfg := w.P2, *w.Cfg2
+			if b.Cfg.String() == w.Cfg2.String() {
+				other, otherCfg = w.P, w.Cfg
+				if other == nil {
+					other = url.NewParser()
+				}
+			}
+			ownerCfg = otherCfg
+			u, err = other.BasicParser(ref, b.U, nil, url.NoState)
 		default:
+			ownerCfg = b.Cfg // (*Url).Parse uses the base's own parser
 			u, err = b.U.Parse(ref)
 		}
 		if op.K == "resolve" {
@@ -351,6 +367,7 @@ func (w *World) exec(i int, op Op) (ev Event) {
 		}
 		ev.Read = op.H
 		c := s.U.Clone()
+		ownerCfg = s.Cfg
 		if op.K == "clone" {
 			mkURL(c, nil, "cloned", op.H)
 		}
@@ -545,6 +562,7 @@ func (w *World) refresh() (panicked string) {
 // final observations with those of the observed world w.
 func unobservedRun(plan *Plan, w *World, chk Checker) *Failure {
 	b := newWorld(plan.Cfg)
+	b.Cfg2, b.P2 = w.Cfg2, w.P2
 	b.quiet = true
 	b.limits = w.limits
 	_, isC02 := chk.(*c02Checker)
@@ -657,6 +675,13 @@ func runWorld(plan *Plan, mk func() Checker, kf *KnownFindings, keepLog bool) (r
 	rt.Mode = 1
 	defer func() { rt.Mode = prevMode }()
 	w := newWorld(plan.Cfg)
+	if plan.Cfg2 != nil {
+		w.Cfg2 = plan.Cfg2
+		w.P2 = buildParser(*plan.Cfg2)
+		if plan.Cfg2.Profile == "" && len(plan.Cfg2.Opts) == 0 {
+			w.P2 = url.NewParser()
+		}
+	}
 	chk := mk()
 	if _, ok := chk.(*c02Checker); ok {
 		w.touchErrors = true
